@@ -31,7 +31,7 @@ TRUSTED = ['labels cross to the model as equivalence classes under Python == / h
            'freshness / "shares nothing" is NOT proved (needs the heap model of C11): it is checked by the oracle only - '
            'ids of every mutable object and np.shares_memory of every array reachable from result and original, and '
            'mutate-one-side-observe-the-other',
-           'pandas Series.reindex (the mixin) is outside the model: the mixin is compared with the specification by the oracle only']
+           'pandas Series.reindex (the mixin) is outside the model: with default arguments the mixin is compared by the oracle with the same specification as the base class (overlap values, dtype default table NaN/0/False/\'\', status/iterations defaults, freshness)']
 ASSUMPTIONS = ['every series has the length of the span (C09 invariant)',
                'dtypes float64 / int64 / bool / <U (object dtype etc. are outside the property\'s fill table)',
                'old spans of NumPy / pandas type have unique labels (the locators refuse or return masks for duplicates: outside the regime; NumPy duplicates are still compared with the model: KeyError)',
@@ -40,7 +40,7 @@ ASSUMPTIONS = ['every series has the length of the span (C09 invariant)',
 META = {
     "text": "Theorems for every object (any variables, dtypes, values), every old/new span (permuted, disjoint, repeated labels; first occurrence = list.index) and every fill_value / keyword fills / strict combination: each new position holds the old value at the first occurrence of its label, else coerce(dtype, keyword fill if given else fill_value) with None -> NaN/0/False/''; models default status to '-' and iterations to -1 unless overridden; names, order, dtypes, strict flag and all other attributes carry over; unknown fill keywords are rejected with KeyError exactly under effective strictness (strict=None -> the object's flag); reindex succeeds on well-formed objects. The model is tied to VectorContainer.reindex / BaseModel.reindex by exact comparison of the full reindexed state (values, dtypes, order, exception class) on all generated span pairs.",
     "design_ref": "DESIGN.md §5 M6, §6 C12, §7 row 19",
-    "note": "Partial: 'original unchanged / shares nothing' is not a theorem (the functional model has no aliasing; heap model belongs to C11) - checked by the oracle on the real code (ids, np.shares_memory, mutation probes). pandas get_loc / in are inputs for pandas spans; the pandas mixin (Series.reindex) is compared with the specification by the oracle only. Trusted: Lean kernel, axioms propext/Classical.choice/Quot.sound, the correspondence harness. Known findings: pandas-mixin-int-default, pandas-mixin-bool-default, pandas-mixin-str-default, reindex-same-span-object-shared.",
+    "note": "Partial: 'original unchanged / shares nothing' is not a theorem (the functional model has no aliasing; heap model belongs to C11) - checked by the oracle on the real code (ids, np.shares_memory, mutation probes). pandas get_loc / in are inputs for pandas spans; the pandas mixin (Series.reindex) is compared with the specification by the oracle only. Trusted: Lean kernel, axioms propext/Classical.choice/Quot.sound, the correspondence harness. The mixin with default arguments is held by the oracle to the same dtype default table as the base class (NaN, 0, False, '' - proved for the base class in fill_default_table; the mixin itself is not modelled). Former findings pandas-mixin-int/bool/str-default (fixed in /repo 7a4b423) and reindex-same-span-object-shared (fixed 4b4abc7) keep their oracle keys, so a regression is a new VIOLATION.",
     "technique": "Lean 4 proof (induction over the copy loop and the variable list) + exhaustive differential correspondence + property oracle with sharing probes"
 }
 
